@@ -48,7 +48,7 @@ def wf (p : UParts) : Bool :=
       | none => true)
   && (match p.host with
       | .name h => !h.isEmpty && h.all isHostChar
-      | .v6 h => !h.isEmpty && h.all (fun c => isHex c || c.toNat = 58 || c.toNat = 46))
+      | .v6 h => !h.isEmpty && h.all (fun c => isHex c || c.toNat = 58 || c.toNat = 46) && h.contains 58)
   && (match p.port with | some n => decide (1 ≤ n ∧ n ≤ 65535) | none => true)
   && (match p.path with | [] => true | c :: cs => c.toNat = 47 && cs.all isUrlChar)
   && (match p.query with | some q => !q.isEmpty && q.all (fun c => isUrlChar c || c.toNat = 63) | none => true)
@@ -72,14 +72,18 @@ def route (scheme : Bytes) : Route :=
   else if s == [102, 105, 108, 101] then .file                                            -- file
   else .other
 
+/-- the TCP transport needs a port -/
+def specTcp (host : Bytes) (port : Option Nat) (u k : Option Bytes) : Target :=
+  match port with
+  | some n => .tcp host n u k
+  | none => .refused St.INVALID_ARGUMENT
+
 /-- what must reach the transport for a well-formed URI (blocking service) -/
 def specBlocking (p : UParts) (loginId key : Option Bytes) : Target :=
   let u := p.cred.map (·.1); let k := p.cred.map (·.2)
   match route p.scheme with
   | .http ns => .http (httpUrl ns p) (orElse loginId u) (orElse key k)
-  | .tcp => match p.port with
-    | some n => .tcp p.host.text n (orElse loginId u) (orElse key k)
-    | none => .refused St.INVALID_ARGUMENT
+  | .tcp => specTcp p.host.text p.port (orElse loginId u) (orElse key k)
   | .file => .file ((render p).drop 7) loginId key
   | .other => .http (render p) loginId key
 
@@ -88,9 +92,7 @@ def specAsync (p : UParts) (loginId key : Option Bytes) : Target :=
   let u := p.cred.map (·.1); let k := p.cred.map (·.2)
   match route p.scheme with
   | .http ns => .http (httpUrl ns p) (orElse loginId u) (orElse key k)
-  | .tcp => match p.port with
-    | some n => .tcp p.host.text n (orElse loginId u) (orElse key k)
-    | none => .refused St.INVALID_ARGUMENT
+  | .tcp => specTcp p.host.text p.port (orElse loginId u) (orElse key k)
   | _ => .refused St.INVALID_FORMAT
 
 end KsiVerif.Uri
